@@ -170,9 +170,18 @@ fn source(step: Step, c: &Case) -> String {
         Step::ParseA => format!("r{{p:selector-parse({})}}", q(a)),
         Step::ParseB => format!("r{{p:selector-parse({})}}", q(b)),
         Step::SimpleA => format!("r{{p:simple-selectors({})}}", q(a)),
-        Step::RuleA => format!("{} {{ m: 1 }}", a),
-        Step::RuleB => format!("{} {{ m: 1 }}", b),
-        Step::RuleT => format!("{} {{ m: 1 }}", t),
+        Step::RuleA => rule_probe(a),
+        Step::RuleB => rule_probe(b),
+        Step::RuleT => rule_probe(t),
+    }
+}
+
+/// does the style-rule parser accept the selector? (`&` is only meaningful inside another rule)
+fn rule_probe(sel: &str) -> String {
+    if sel.contains('&') {
+        format!("z {{ {} {{ m: 1 }} }}", sel)
+    } else {
+        format!("{} {{ m: 1 }}", sel)
     }
 }
 
